@@ -17,7 +17,7 @@ class Arith (K : Type) where
   isZero : K → Bool           -- `a == 0.0`
   gillespieDt : K → K → K     -- `a r1 ↦ (1.0 / a) * math.log(1.0 / r1)`
 
-structure Fired (K E : Type) where
+structure Fired (K E Λ : Type) where
   posted : Bool
   own : K            -- the event's own time
   htime : K          -- time passed to the handler
@@ -25,68 +25,68 @@ structure Fired (K E : Type) where
   tap : K            -- time reported to `eventFired`
   hid : Nat
   elem : E
-  locus : Option Nat -- the locus a stochastic event was drawn from
+  locus : Option Λ   -- the locus a stochastic event was drawn from
   member : Bool      -- was the element in that locus when the handler was called (posted events: true)
   pid : Nat          -- id of a posted event (0 for stochastic ones)
 
-structure Proc (K U E : Type) where
+structure Proc (K U E Λ : Type) where
   handler : Nat → K → E → Prog K U E
-  tap : Fired K E → St K U E → U        -- `eventFired`: sees everything, changes only the user world
+  tap : Fired K E Λ → St K U E → U        -- `eventFired`: sees everything, changes only the user world
   atEq : St K U E → K → Bool            -- `process.atEquilibrium(t)`
-  perEl : List (Nat × K × Nat)          -- (locus, probability, handler) in registration order
-  fixed : List (Nat × K × Nat)
-  size : U → Nat → Nat                  -- `len(locus)`
-  elems : U → Nat → List E              -- iteration order of the locus
-  mem : U → Nat → E → Bool              -- `e in locus`
-  draw : U → Nat → Option (E × U)       -- `locus.draw()`; consumes integers from the stream kept in `U`
+  perEl : U → List (Λ × K × Nat)        -- (locus, probability, handler) in registration order
+  fixed : U → List (Λ × K × Nat)
+  size : U → Λ → Nat                  -- `len(locus)`
+  elems : U → Λ → List E              -- iteration order of the locus
+  mem : U → Λ → E → Bool              -- `e in locus`
+  draw : U → Λ → Option (E × U)       -- `locus.draw()`; consumes integers from the stream kept in `U`
   rand : U → Option (K × U)             -- `rng.random()`
 
-variable {K U E : Type} [LT K] [LE K] [DecidableLT K] [DecidableLE K] [Arith K]
+variable {K U E Λ : Type} [LT K] [LE K] [DecidableLT K] [DecidableLE K] [Arith K]
 
 def setNow (s : St K U E) (t : K) : St K U E := { s with q := { s.q with now := t } }
 
-def firePosted (P : Proc K U E) (bound : K) (s : St K U E) : Option (St K U E × Fired K E) :=
+def firePosted (P : Proc K U E Λ) (bound : K) (s : St K U E) : Option (St K U E × Fired K E Λ) :=
   match popBefore s.q bound with
   | none => none
   | some (q1, x) =>
     let s1 := exec (P.handler x.hid x.time x.elem) { s with q := q1 }
-    let ev : Fired K E := ⟨true, x.time, x.time, q1.now, x.time, x.hid, x.elem, none, true, x.id⟩
+    let ev : Fired K E Λ := ⟨true, x.time, x.time, q1.now, x.time, x.hid, x.elem, none, true, x.id⟩
     some ({ s1 with u := P.tap ev s1 }, ev)
 
 /-- `runPendingEvents(bound)`; the Bool says the loop ended by itself (nothing due), not by running out of fuel -/
-def runPending (P : Proc K U E) (bound : K) : Nat → St K U E → List (Fired K E) → St K U E × List (Fired K E) × Bool
+def runPending (P : Proc K U E Λ) (bound : K) : Nat → St K U E → List (Fired K E Λ) → St K U E × List (Fired K E Λ) × Bool
   | 0, s, tr => (s, tr, false)
   | f+1, s, tr =>
     match firePosted P bound s with
     | none => (s, tr, true)
     | some (s', ev) => runPending P bound f s' (tr ++ [ev])
 
-def fireStoch (P : Proc K U E) (t : K) (l h : Nat) (e : E) (s : St K U E) : St K U E × Fired K E :=
+def fireStoch (P : Proc K U E Λ) (t : K) (l : Λ) (h : Nat) (e : E) (s : St K U E) : St K U E × Fired K E Λ :=
   let s1 := exec (P.handler h t e) s
-  let ev : Fired K E := ⟨false, t, t, s.q.now, t, h, e, some l, P.mem s.u l e, 0⟩
+  let ev : Fired K E Λ := ⟨false, t, t, s.q.now, t, h, e, some l, P.mem s.u l e, 0⟩
   ({ s1 with u := P.tap ev s1 }, ev)
 
 /-! ### stochastic (Gillespie) dynamics -/
 
-def rates (P : Proc K U E) (u : U) : List (Nat × K × Nat) :=
-  P.perEl.map (fun x => (x.1, Arith.mul x.2.1 (Arith.ofNat (P.size u x.1)), x.2.2)) ++ P.fixed
+def rates (P : Proc K U E Λ) (u : U) : List (Λ × K × Nat) :=
+  (P.perEl u).map (fun x => (x.1, Arith.mul x.2.1 (Arith.ofNat (P.size u x.1)), x.2.2)) ++ P.fixed u
 
-def total (rs : List (Nat × K × Nat)) : K := rs.foldl (fun a r => Arith.add a r.2.1) Arith.zero
+def total (rs : List (Λ × K × Nat)) : K := rs.foldl (fun a r => Arith.add a r.2.1) Arith.zero
 
 /-- the selection loop: first entry with `xs + rate > xc`, falling through to the last one -/
-def select (xc : K) : K → List (Nat × K × Nat) → (Nat × K × Nat) → (Nat × K × Nat)
+def select (xc : K) : K → List (Λ × K × Nat) → (Λ × K × Nat) → (Λ × K × Nat)
   | _, [], last => last
   | xs, tr :: rest, _ => if xc < Arith.add xs tr.2.1 then tr else select xc (Arith.add xs tr.2.1) rest tr
 
-structure Loop (K U E : Type) where
+structure Loop (K U E Λ : Type) where
   s : St K U E
-  tr : List (Fired K E)
+  tr : List (Fired K E Λ)
   t : K
   steps : Nat := 0        -- synchronous: timesteps with events
   stuck : Bool := false   -- the model could not go on (inner fuel or scripted random stream exhausted)
 
 /-- one iteration of `while not proc.atEquilibrium(t)`; the Bool says "go round again" -/
-def stoIter (P : Proc K U E) (fuel : Nat) (L : Loop K U E) : Loop K U E × Bool :=
+def stoIter (P : Proc K U E Λ) (fuel : Nat) (L : Loop K U E Λ) : Loop K U E Λ × Bool :=
   if P.atEq L.s L.t then (L, false) else
   let rs := rates P L.s.u
   let a := total rs
@@ -101,7 +101,7 @@ def stoIter (P : Proc K U E) (fuel : Nat) (L : Loop K U E) : Loop K U E × Bool 
     | none => ({ L with stuck := true }, false)
     | some (r1, u1) =>
       let dt := Arith.gillespieDt a r1
-      let pick : Option ((Nat × K × Nat) × U) :=
+      let pick : Option ((Λ × K × Nat) × U) :=
         match rs with
         | [] => none
         | [one] => some (one, u1)
@@ -121,22 +121,22 @@ def stoIter (P : Proc K U E) (fuel : Nat) (L : Loop K U E) : Loop K U E × Bool 
             ({ L with s := f.1, tr := r.2.1 ++ [f.2], t := nt }, true)
         else ({ L with s := s, tr := r.2.1, t := nt }, true)
 
-def runSto (P : Proc K U E) (inner : Nat) : Nat → Loop K U E → Loop K U E
+def runSto (P : Proc K U E Λ) (inner : Nat) : Nat → Loop K U E Λ → Loop K U E Λ
   | 0, L => L
   | f+1, L => let r := stoIter P inner L; if r.2 then runSto P inner f r.1 else r.1
 
 /-! ### synchronous dynamics -/
 
 /-- `allEventsInTimestep`: one trial per element per per-element event, then one per fixed-rate event plus a draw -/
-def perElTrials (P : Proc K U E) (l : Nat) (p : K) (h : Nat) :
-    List E → U → List (Nat × E × Nat) → Option (List (Nat × E × Nat) × U)
+def perElTrials (P : Proc K U E Λ) (l : Λ) (p : K) (h : Nat) :
+    List E → U → List (Λ × E × Nat) → Option (List (Λ × E × Nat) × U)
   | [], u, acc => some (acc, u)
   | e :: es, u, acc =>
     match P.rand u with
     | none => none
     | some (r, u') => perElTrials P l p h es u' (if r ≤ p then acc ++ [(l, e, h)] else acc)
 
-def perElPart (P : Proc K U E) : List (Nat × K × Nat) → U → List (Nat × E × Nat) → Option (List (Nat × E × Nat) × U)
+def perElPart (P : Proc K U E Λ) : List (Λ × K × Nat) → U → List (Λ × E × Nat) → Option (List (Λ × E × Nat) × U)
   | [], u, acc => some (acc, u)
   | (l, p, h) :: rest, u, acc =>
     if P.size u l > 0 ∧ Arith.zero < p then
@@ -145,7 +145,7 @@ def perElPart (P : Proc K U E) : List (Nat × K × Nat) → U → List (Nat × E
       | some (acc', u') => perElPart P rest u' acc'
     else perElPart P rest u acc
 
-def fixedPart (P : Proc K U E) : List (Nat × K × Nat) → U → List (Nat × E × Nat) → Option (List (Nat × E × Nat) × U)
+def fixedPart (P : Proc K U E Λ) : List (Λ × K × Nat) → U → List (Λ × E × Nat) → Option (List (Λ × E × Nat) × U)
   | [], u, acc => some (acc, u)
   | (l, p, h) :: rest, u, acc =>
     if P.size u l > 0 ∧ Arith.zero < p then
@@ -159,20 +159,20 @@ def fixedPart (P : Proc K U E) : List (Nat × K × Nat) → U → List (Nat × E
         else fixedPart P rest u' acc
     else fixedPart P rest u acc
 
-def tranche (P : Proc K U E) (u : U) : Option (List (Nat × E × Nat) × U) :=
-  match perElPart P P.perEl u [] with
+def tranche (P : Proc K U E Λ) (u : U) : Option (List (Λ × E × Nat) × U) :=
+  match perElPart P (P.perEl u) u [] with
   | none => none
-  | some (acc, u') => fixedPart P P.fixed u' acc
+  | some (acc, u') => fixedPart P (P.fixed u) u' acc
 
 /-- the membership re-check before firing -/
-def synFire (P : Proc K U E) (t : K) (acc : St K U E × List (Fired K E)) (x : Nat × E × Nat) :
-    St K U E × List (Fired K E) :=
+def synFire (P : Proc K U E Λ) (t : K) (acc : St K U E × List (Fired K E Λ)) (x : Λ × E × Nat) :
+    St K U E × List (Fired K E Λ) :=
   if P.mem acc.1.u x.1 x.2.1 then
     let r := fireStoch P t x.1 x.2.2 x.2.1 acc.1
     (r.1, acc.2 ++ [r.2])
   else acc
 
-def synIter (P : Proc K U E) (fuel : Nat) (L : Loop K U E) : Loop K U E × Bool :=
+def synIter (P : Proc K U E Λ) (fuel : Nat) (L : Loop K U E Λ) : Loop K U E Λ × Bool :=
   if P.atEq L.s L.t then (L, false) else
   let s := setNow L.s L.t
   let r := runPending P L.t fuel s L.tr
@@ -185,7 +185,7 @@ def synIter (P : Proc K U E) (fuel : Nat) (L : Loop K U E) : Loop K U E × Bool 
     ({ s := r2.1, tr := r2.2, t := Arith.add L.t Arith.one,
        steps := if r2.2.length > L.tr.length then L.steps + 1 else L.steps, stuck := L.stuck }, true)
 
-def runSyn (P : Proc K U E) (inner : Nat) : Nat → Loop K U E → Loop K U E
+def runSyn (P : Proc K U E Λ) (inner : Nat) : Nat → Loop K U E Λ → Loop K U E Λ
   | 0, L => L
   | f+1, L => let r := synIter P inner L; if r.2 then runSyn P inner f r.1 else r.1
 
